@@ -29,6 +29,7 @@ def to_replay_spec(spec, res):
     r['faults'] = [[f[0], f[1], f[2], f[3]] for f in res['fired']]
     if res.get('instr_fn'):
         r['instr_fn'] = res['instr_fn']
+    r.pop('focus_faults', None)      # they fired (or not) and are now ordinary entries of 'faults'
     r['gcs_at'] = res.get('gcs_at') or []
     r['record'] = True
     return r
